@@ -186,6 +186,11 @@ def check_mask_sift(ctx, tr, case):
                                 imf_opts=io, envelope_opts=eo, extrema_opts=xo)
         ctx.count('mask_sifts')
     imf, freqs = outs[case['nprocesses'][0]]
+    # (a single-precision recording that its first extraction hands back unchanged yields a single-precision frequency estimate;
+    # the library then forms 2*pi*z in that precision - the mask definition is judged to single precision in that case)
+    single = np.asarray(freqs).dtype == np.float32
+    if single:
+        ctx.count('mask_sifts_with_single_precision_frequency')
     freqs = np.asarray(freqs, dtype=float)
     src = mf if isinstance(mf, str) else ('list' if isinstance(mf, (list, tuple)) else 'float')
     ctx.count('freq_source:' + src)
@@ -231,7 +236,7 @@ def check_mask_sift(ctx, tr, case):
         ref, _ = spec_masked_extraction(S, resid, freqs[k], a, P, io, eo, xo)
         err = np.abs(imf[:, k] - ref).max() / scale
         ctx.count('mask_sift_columns_checked')
-        if err > 1e-10:
+        if err > (1e-10 if not single else 1e-5):
             ctx.violation('mask-sift-column:' + mode, 'column %d of mask_sift is not the specified masked extraction with '
                           'frequency %.4g and amplitude %.4g (%s): rel err %.3g' % (k, freqs[k], a, mode, err), case)
             return
